@@ -304,7 +304,7 @@ PLANS = {
         [AP('d1', S_ALL, [1, 2, 8], V_ALL, [1, 2, 9], 1),
          A_merge('mo', 'merge', 3, 2, 1, timeout=9000), A_merge('mo2', 'merge', 1, 2, 2, timeout=9000),
          AP('d2', [1, 3, 4, 5, 6, 10, 11], [1], V_ALL, [1, 2, 6, 8, 9], 2, timeout=9000),
-         AP('d3', [8, 10], [1], [1, 2, 6], [1, 6], 3, kinds=['add', 'remove', 'replace', 'move', 'copy'], timeout=9000)],
+         AP('d3', [8, 9], [1], [1, 2, 6], [1, 6], 3, kinds=['add', 'remove', 'replace', 'move', 'copy'], timeout=9000)],
         'the ORDERED, literal-exact form of the output (member order and number literals significant) is compared with the '
         'specification state; the empty patch is replayed for every seed',
         CORE_LABELS + ['EmptyPatch', 'AddRoot']),
@@ -326,7 +326,7 @@ PLANS = {
         [AP('d1', S_ALL, [1, 8, 9, 10, 11], V_ALL, [1, 2, 9], 1, respell=True, extra_opt='wsonly=1'),
          AP('d2', [1, 2, 7, 10, 6], [1, 8, 9, 10], [1, 5, 8], [1, 5], 2, kinds=['copy', 'add', 'remove', 'replace'], respell=True,
             extra_opt='wsonly=1', timeout=9000),
-         AP('d3', [10], [1, 8, 9, 10], [5], [5], 3, kinds=['copy', 'remove'], timeout=9000)],
+         AP('d3', [10], [1, 8, 9], [5], [5], 3, kinds=['copy'], timeout=9000)],
         'for every successful behaviour ending in a copy the patch is re-run with limits total-1 (must stop with '
         '*AccumulatedCopySizeError and no document), total, total+1, total+1000 (must succeed with the same document), through '
         'the per-call option and through the package default; behaviours under fixed limits 7/12/20 are compared with the '
@@ -339,7 +339,7 @@ PLANS = {
          AP('d2', [5, 6], [3, 4], [1, 2, 6], [1, 9], 2)],
         [AP('d1', S_ALL, [3, 4, 7, 11], V_ALL, [1, 2, 9], 1),
          AP('d2', [1, 2, 5, 6, 10, 11], [3, 4], [1, 2, 6, 8, 9], [1, 2, 9], 2, timeout=9000),
-         AP('d3', [5, 6], [3], [1, 6], [1], 3, kinds=['add', 'remove', 'move', 'replace'], timeout=9000)],
+         AP('d3', [8, 9], [3, 4], [1, 6, 8], [1, 6], 3, kinds=['add', 'remove', 'move', 'replace'], timeout=9000)],
         'with AllowMissingPathOnRemove the output is compared with the specification, and the same patch minus the removes '
         'the specification skipped is run WITHOUT the option: both real outcomes must agree (document or error)',
         ['RemoveSkippedMember', 'RemoveSkippedIndex', 'RemoveSkippedNoParent', 'RemoveMember', 'RemoveElem',
